@@ -908,8 +908,38 @@ func (c *FnVC) finish() {
 		}
 		c.assume(t)
 	}
+	if c.ct.Uses["perreturn"] && len(c.rets) > 1 {
+		// one obligation per postcondition conjunct and return site: smaller queries,
+		// and the failing path is named
+		for ri, r := range c.rets {
+			renv := c.paramEnv()
+			c.bindResults(renv, c.fn.Signature, r.vals)
+			rev := c.newEval(c.fn, renv, r.heap, old)
+			for i, e := range c.ct.Ensures {
+				conj := splitConjDeep(e.Expr, 0)
+				for j, cj := range conj {
+					t, err := rev.boolExpr(cj)
+					if err != nil {
+						c.errorf("%s: ensures %q: %v", c.fnName(), e.Text, err)
+						continue
+					}
+					suffix := fmt.Sprintf("ensures.%d", i+1)
+					if e.Tag != "" {
+						suffix = "ensures." + e.Tag
+					}
+					if len(conj) > 1 {
+						suffix += fmt.Sprintf(".c%d", j+1)
+					}
+					suffix += fmt.Sprintf("@ret%d", ri+1)
+					c.obligeNamed("ensures", suffix, t, r.reach, "postcondition at return "+fmt.Sprint(ri+1)+": "+exprString(cj), nil)
+				}
+			}
+		}
+		c.frameObligations(reach)
+		return
+	}
 	for i, e := range c.ct.Ensures {
-		conj := splitConj(e.Expr)
+		conj := splitConjDeep(e.Expr, 0)
 		for j, cj := range conj {
 			t, err := ev.boolExpr(cj)
 			if err != nil {
